@@ -49,20 +49,20 @@ type GenPkg struct {
 
 // Run is one harness entry point.
 type Run struct {
-	Name     string           `json:"name"`
-	Pkg      string           `json:"pkg"` // import path
-	Files    []string         `json:"files"`
-	Entry    string           `json:"entry"`
-	Quick    map[string]int64 `json:"quick"`
-	Thorough map[string]int64 `json:"thorough"`
-	Covers   []string         `json:"covers"`
-	Bounds   string           `json:"bounds"`
-	MaxPaths int              `json:"maxpaths"`
-	TimeoutS map[string]int   `json:"timeout_s"`
-	Tiers    []string         `json:"tiers"` // restrict to these tiers (default both)
-	NoNative bool             `json:"no_native"`
-	Programs int              `json:"programs"`
-	StepBudget int64          `json:"step_budget"`
+	Name       string           `json:"name"`
+	Pkg        string           `json:"pkg"` // import path
+	Files      []string         `json:"files"`
+	Entry      string           `json:"entry"`
+	Quick      map[string]int64 `json:"quick"`
+	Thorough   map[string]int64 `json:"thorough"`
+	Covers     []string         `json:"covers"`
+	Bounds     string           `json:"bounds"`
+	MaxPaths   int              `json:"maxpaths"`
+	TimeoutS   map[string]int   `json:"timeout_s"`
+	Tiers      []string         `json:"tiers"` // restrict to these tiers (default both)
+	NoNative   bool             `json:"no_native"`
+	Programs   int              `json:"programs"`
+	StepBudget int64            `json:"step_budget"`
 }
 
 // KnownFile is /verif/known-findings.json.
@@ -83,7 +83,7 @@ var pureStd = map[string]bool{
 	"path": true, "path/filepath": true, "go/token": true, "go/scanner": true, "go/ast": true, "go/parser": true,
 	"math/bits": true, "cmp": true, "internal/stringslite": true, "unicode/utf16": true,
 	"internal/filepathlite": true, "io/fs": true, "internal/oserror": true, "context": true, "math": true, "iter": true, "internal/itoa": true,
-	"net/http": false, "net/textproto": true, "html/template": false, "encoding/hex": true, "encoding/base64": true,
+	"net/http": false, "net/textproto": false, "html/template": false, "encoding/hex": true, "encoding/base64": true,
 	"go/build/constraint": true, "go/internal/typeparams": true, "internal/byteorder": true, "encoding/binary": false,
 	"container/list": true, "text/tabwriter": true, "go/printer": true, "go/format": true, "go/doc/comment": true,
 }
@@ -255,6 +255,9 @@ func main() {
 				return p == "internal/cpu" || p == "internal/bytealg" || p == "unsafe" || p == "internal/godebug" || p == "internal/race"
 			},
 			Witness: *witness,
+			Tolerant: func(p string) bool {
+				return p == "encoding/json" || p == "net/http" || p == "net/textproto" || p == "mime" || p == "log/slog" || p == "go/types"
+			},
 		}
 		rep, err := sym.Explore(cfg)
 		if err != nil {
